@@ -252,18 +252,23 @@ fn walk(sig: &[u8], si: usize, buf: &[u8], off: &mut usize, bo: ByteOrder, out: 
     }
     Some(())
 }
-fn body_indices(msg: &MarshalledMessage) -> Option<Vec<u32>> {
+fn body_layout(msg: &MarshalledMessage) -> Option<(Vec<u32>, Vec<usize>)> {
     let sig = msg.get_sig().as_bytes();
     let buf = msg.get_buf();
     let bo = msg.body.byteorder();
     let mut out = Vec::new();
+    let mut starts = Vec::new();
     let mut off = 0;
     let mut si = 0;
     while si < sig.len() {
+        starts.push(off);
         walk(sig, si, buf, &mut off, bo, &mut out)?;
         si = type_end(sig, si);
     }
-    Some(out)
+    Some((out, starts))
+}
+fn body_indices(msg: &MarshalledMessage) -> Option<Vec<u32>> {
+    body_layout(msg).map(|x| x.0)
 }
 
 /// UNIX_FDS as wire::marshal::marshal writes it for this message (0 = field absent), read back with
@@ -461,8 +466,6 @@ fn do_push(w: &mut World, b: usize, shape: char, its: &[It]) -> String {
         Ok(()) => {
             if let Some(sh) = br.shapes.as_mut() {
                 sh.push(ShapeRec { shape, n, ord: ord.clone() });
-            } else if n > 0 {
-                // pushing onto a crafted body: from now on only the generic reader knows its layout
             }
             let idx = body_indices(&br.msg).unwrap_or_default();
             let added: Vec<String> = idx.iter().skip(idx.len().saturating_sub(n)).map(|x| x.to_string()).collect();
@@ -477,13 +480,28 @@ fn do_push(w: &mut World, b: usize, shape: char, its: &[It]) -> String {
     }
 }
 
-fn recv_all(peer: &UnixStream, total: usize) -> Result<(Vec<u8>, Vec<RawFd>), String> {
+/// `abort`: set by the writing side when it gave up; the reader then stops waiting for more bytes
+fn recv_all(peer: &UnixStream, total: usize, abort: Option<&std::sync::atomic::AtomicBool>) -> Result<(Vec<u8>, Vec<RawFd>), String> {
     let mut bytes = Vec::with_capacity(total);
     let mut fds = Vec::new();
     let mut cm = nix::cmsg_space!([RawFd; 253]);
     let mut buf = vec![0u8; 65536];
     peer.set_read_timeout(Some(HANG)).ok();
     while bytes.len() < total {
+        if let Some(flag) = abort {
+            use std::os::fd::AsFd;
+            let mut pfd = [nix::poll::PollFd::new(peer.as_fd(), nix::poll::PollFlags::POLLIN)];
+            let ready = nix::poll::poll(&mut pfd, nix::poll::PollTimeout::from(100u8)).unwrap_or(0);
+            if ready == 0 {
+                if flag.load(std::sync::atomic::Ordering::SeqCst) {
+                    for f in fds {
+                        let _ = nix::unistd::close(f);
+                    }
+                    return Err("the writer gave up".into());
+                }
+                continue;
+            }
+        }
         let want = std::cmp::min(buf.len(), total - bytes.len());
         cm.clear();
         let mut iov = [IoSliceMut::new(&mut buf[..want])];
@@ -544,15 +562,23 @@ fn do_send(w: &mut World, b: usize) -> String {
     };
     let (wres, rres) = if total > 60_000 {
         // larger than the socket buffer: the peer has to read while the library writes
+        let failed = std::sync::atomic::AtomicBool::new(false);
         std::thread::scope(|s| {
-            let wr = s.spawn(write);
-            let rres = recv_all(peer, total);
+            let fl = &failed;
+            let wr = s.spawn(move || {
+                let r = write();
+                if r.is_err() {
+                    fl.store(true, std::sync::atomic::Ordering::SeqCst);
+                }
+                r
+            });
+            let rres = recv_all(peer, total, Some(&failed));
             let wres = wr.join().unwrap_or_else(|_| Err("panic".into()));
             (wres, rres)
         })
     } else {
         let wres = write();
-        let rres = if wres.is_ok() { recv_all(peer, total) } else { Err("not sent".into()) };
+        let rres = if wres.is_ok() { recv_all(peer, total, None) } else { Err("not sent".into()) };
         (wres, rres)
     };
     match (wres, rres) {
@@ -564,13 +590,13 @@ fn do_send(w: &mut World, b: usize) -> String {
             format!("\"res\":\"sent:{}:{}\"", h, n)
         }
         (Ok(()), Err(e)) => format!("\"res\":\"HARNESS {}\"", e),
-        (Err(_), r) => {
+        (Err(e), r) => {
             if let Ok((_, fds)) = r {
                 for f in fds {
                     let _ = nix::unistd::close(f);
                 }
             }
-            "\"res\":\"err\"".into()
+            format!("\"res\":\"err\",\"detail\":\"{}\"", e.replace('"', "'"))
         }
     }
 }
@@ -613,7 +639,8 @@ fn do_inject(w: &mut World, cs: &[usize], idxs: &[u32]) -> String {
         return "\"res\":\"HARNESS cannot build injected message\"".into();
     }
     bytes.extend_from_slice(&bodybytes);
-    w.wire.push_back(Transit { bytes, fds, shapes: None, idx: idxs.to_vec() });
+    let shapes = Some(idxs.iter().map(|_| ShapeRec { shape: 's', n: 1, ord: vec![0] }).collect());
+    w.wire.push_back(Transit { bytes, fds, shapes, idx: idxs.to_vec() });
     "\"res\":\"ok\"".into()
 }
 
@@ -661,25 +688,30 @@ fn do_unmarshal(w: &mut World, b: usize, idx: u32) -> String {
     }
 }
 
-/// all descriptors of one pushed value, in wire order, through the typed parser
-fn parse_shape<'a>(p: &mut rustbus::message_builder::MessageBodyParser<'a>, sh: &ShapeRec) -> Result<Vec<UnixFd>, String> {
+/// all descriptors of one pushed value, in wire order, through the typed Unmarshal impls, starting
+/// at the value's offset in the body (what MessageBodyParser::get does after its signature check)
+fn parse_shape(msg: &MarshalledMessage, starts: &[usize], pi: usize, sh: &ShapeRec) -> Result<Vec<UnixFd>, String> {
     let e = |x: rustbus::wire::errors::UnmarshalError| format!("{:?}", x);
+    let at = |k: usize| -> Result<UnmarshalContext, String> {
+        let off = *starts.get(k).ok_or("no such param")?;
+        Ok(UnmarshalContext::new(msg.body.get_fds(), msg.body.byteorder(), msg.get_buf(), off))
+    };
     Ok(match (sh.shape, sh.n) {
-        ('s', _) | ('o', _) => vec![p.get::<UnixFd>().map_err(e)?],
-        ('t', 1) => vec![p.get::<(u64, UnixFd)>().map_err(e)?.1],
+        ('s', _) | ('o', _) => vec![UnixFd::unmarshal(&mut at(pi)?).map_err(e)?],
+        ('t', 1) => vec![<(u64, UnixFd)>::unmarshal(&mut at(pi)?).map_err(e)?.1],
         ('t', 2) => {
-            let (a, _, c) = p.get::<(UnixFd, u64, UnixFd)>().map_err(e)?;
+            let (a, _, c) = <(UnixFd, u64, UnixFd)>::unmarshal(&mut at(pi)?).map_err(e)?;
             vec![a, c]
         }
         ('t', 3) => {
-            let (a, b, c) = p.get::<(UnixFd, UnixFd, UnixFd)>().map_err(e)?;
+            let (a, b, c) = <(UnixFd, UnixFd, UnixFd)>::unmarshal(&mut at(pi)?).map_err(e)?;
             vec![a, b, c]
         }
-        ('g', _) => vec![p.get::<(&[u8], UnixFd)>().map_err(e)?.1],
-        ('v', _) => p.get::<Vec<UnixFd>>().map_err(e)?,
-        ('n', _) => p.get::<Vec<(u64, UnixFd)>>().map_err(e)?.into_iter().map(|x| x.1).collect(),
+        ('g', _) => vec![<(&[u8], UnixFd)>::unmarshal(&mut at(pi)?).map_err(e)?.1],
+        ('v', _) => <Vec<UnixFd>>::unmarshal(&mut at(pi)?).map_err(e)?,
+        ('n', _) => <Vec<(u64, UnixFd)>>::unmarshal(&mut at(pi)?).map_err(e)?.into_iter().map(|x| x.1).collect(),
         ('m', _) => {
-            let mut m = p.get::<HashMap<String, UnixFd>>().map_err(e)?;
+            let mut m = <HashMap<String, UnixFd>>::unmarshal(&mut at(pi)?).map_err(e)?;
             let mut v = Vec::new();
             for i in &sh.ord {
                 v.push(m.remove(&format!("k{}", i)).ok_or("missing key")?);
@@ -688,8 +720,8 @@ fn parse_shape<'a>(p: &mut rustbus::message_builder::MessageBodyParser<'a>, sh: 
         }
         ('p', n) | ('q', n) => {
             let mut v = Vec::new();
-            for _ in 0..n {
-                v.push(p.get::<UnixFd>().map_err(e)?);
+            for k in 0..n {
+                v.push(UnixFd::unmarshal(&mut at(pi + k)?).map_err(e)?);
             }
             v
         }
@@ -699,38 +731,35 @@ fn parse_shape<'a>(p: &mut rustbus::message_builder::MessageBodyParser<'a>, sh: 
 
 fn do_parse(w: &mut World, b: usize, j: usize) -> String {
     let Some(Some(br)) = w.bods.get(b) else { return "\"res\":\"invalid\"".into() };
-    let idx = body_indices(&br.msg).unwrap_or_default();
+    let Some((idx, starts)) = body_layout(&br.msg) else { return "\"res\":\"HARNESS unreadable body\"".into() };
     if j >= idx.len() {
         return "\"res\":\"invalid\"".into();
     }
-    let res: Result<UnixFd, String> = match &br.shapes {
-        None => {
-            // flat "hhh..": the j-th value sits at byte 4*j
-            let mut ctx = UnmarshalContext::new(br.msg.body.get_fds(), br.msg.body.byteorder(), br.msg.get_buf(), 4 * j);
-            <UnixFd as Unmarshal>::unmarshal(&mut ctx).map_err(|e| format!("{:?}", e))
-        }
-        Some(shapes) => {
-            let mut p = br.msg.body.parser();
-            let mut seen = 0;
-            let mut found = Err("slot not found".to_string());
-            for sh in shapes {
-                match parse_shape(&mut p, sh) {
-                    Ok(mut v) => {
-                        if j < seen + v.len() {
-                            found = Ok(v.swap_remove(j - seen));
-                            break;
-                        }
-                        seen += v.len();
+    let Some(shapes) = &br.shapes else { return "\"res\":\"HARNESS no layout\"".into() };
+    // the pushed value that holds slot j and the index of its first top-level param
+    let mut seen = 0;
+    let mut pi = 0;
+    let mut res: Result<UnixFd, String> = Err("slot not found".to_string());
+    for sh in shapes {
+        if j < seen + sh.n {
+            res = if sh.shape == 'p' || sh.shape == 'q' {
+                // one top-level param per element: read only the one asked for
+                let one = ShapeRec { shape: 's', n: 1, ord: vec![0] };
+                parse_shape(&br.msg, &starts, pi + (j - seen), &one).map(|mut v| v.swap_remove(0))
+            } else {
+                parse_shape(&br.msg, &starts, pi, sh).and_then(|mut v| {
+                    if j - seen < v.len() {
+                        Ok(v.swap_remove(j - seen))
+                    } else {
+                        Err("value holds fewer descriptors than pushed".to_string())
                     }
-                    Err(e) => {
-                        found = Err(e);
-                        break;
-                    }
-                }
-            }
-            found
+                })
+            };
+            break;
         }
-    };
+        seen += sh.n;
+        pi += if sh.shape == 'p' || sh.shape == 'q' { sh.n } else { 1 };
+    }
     match res {
         Ok(u) => {
             w.hnd.push(Some(u));
